@@ -10,6 +10,10 @@
      TL k      the k-th notifier waiting for notifyMu gets it and checks isLatestCompleted
      TR        the subscriber receives from the notifier that holds notifyMu
      Crash     the process dies (every goroutine with it); a new Store runs LoadCheckpoint on the storage
+     Rewind s  the process dies and a new Store is started FROM THE SAVEPOINT of checkpoint s on the same storage
+               (SavepointURI set: the savepoint overrides the local checkpoints, the id counter continues at s, so
+               ids of the abandoned timeline are issued again and their files are rewritten; enabled when a
+               snapshot of id s was written at some time; the subscribers restart too)
 
    A step that is not enabled is a no-op, so every list of steps is a schedule.  Definitions only. *)
 From RV Require Import Base.Mach Base.Bytes Model.PathSeg.
@@ -33,7 +37,7 @@ Record pstate := MkP {
 
 Definition pinit : pstate := MkP [] [] 0 [] [] [] [] None [] [].
 
-Inductive pstep := Start (n : N) | W (n : N) | U (n : N) | R (k : nat) | TL (k : nat) | TR | Crash.
+Inductive pstep := Start (n : N) | W (n : N) | U (n : N) | R (k : nat) | TL (k : nat) | TR | Crash | Rewind (sp : N).
 
 Definition mem (x : N) (l : list N) : bool := existsb (N.eqb x) l.
 Definition remove_id (x : N) (l : list N) : list N := filter (fun y => negb (y =? x)) l.
@@ -91,13 +95,15 @@ Definition exec1 (q : pquirks) (s : pstate) (st : pstep) : pstate :=
       | Some l => MkP (files s) [l] l [] [] [] [] None (written s) (received s)
       | None => MkP (files s) [] 0 [] [] [] [] None (written s) (received s)
       end
+  | Rewind sp =>
+      if mem sp (written s) then MkP (files s) [sp] sp [] [] [] [] None (written s) [] else s
   end.
 
 Definition exec (q : pquirks) (s : pstate) (l : list pstep) : pstate := fold_left (exec1 q) l s.
 
 (* ---- the steps as the harness drives them: after each harness step every goroutine has run to its next
         blocking point, so a new notifier takes a free notifyMu at once and waiters take it in arrival order ---- *)
-Inductive hstep := HPub | HW (i : N) | HR (i : N) | HT | HCrash.
+Inductive hstep := HPub | HW (i : N) | HR (i : N) | HT | HCrash | HRewind (sp : N).
 
 Definition pick {A} (i : N) (l : list A) : option (nat * A) :=
   match l with
@@ -133,6 +139,19 @@ Definition hexec1 (q : pquirks) (s : pstate) (h : hstep) : pstate * hobs :=
   | HCrash =>
       let s' := exec1 q s Crash in
       (s', OCrash (listing (files s)) (hd_error (completed s')))
+  | HRewind sp =>
+      let s' := exec1 q s (Rewind sp) in
+      (s', OCrash (listing (files s)) (hd_error (completed s')))
+  end.
+
+(* storage/locations/local_directory.go Write: create or TRUNCATE - the file holds exactly the bytes of the last
+   write under that name.  Content is abstracted to a tag (the number of split states of the snapshot). *)
+Definition write_file (id tag : N) (fs : list (N * N)) : list (N * N) :=
+  (id, tag) :: filter (fun e => negb (fst e =? id)) fs.
+Fixpoint file_tag (id : N) (fs : list (N * N)) : option N :=
+  match fs with
+  | [] => None
+  | (i, t) :: fs' => if i =? id then Some t else file_tag id fs'
   end.
 
 Fixpoint hrun (q : pquirks) (s : pstate) (hs : list hstep) : pstate * list hobs :=
